@@ -76,6 +76,7 @@ pub const NODE_FIELDS: &[FDef] = &[
     f("leaf", "Leaf", Ret::Leaf, Idiom::Res, false, false, 24),
     f("ritems", "[Int]", Ret::Int, Idiom::Res, false, false, 25),
     f("ritemsReq", "[Int!]!", Ret::Int, Idiom::Res, false, false, 26),
+    f("matrix", "[[Int!]]", Ret::Int, Idiom::Res, false, false, 40),
     // more than 30 items: futures-util's join switches from its small-set variant to FuturesOrdered
     f("crowd", "[Node]", Ret::Node, Idiom::Res, false, false, 27),
 ];
@@ -594,6 +595,11 @@ macro_rules! node_fields {
                 run(ctx, $name, "grid", d).await?;
                 Ok(Some((0..d.len(17)).map(|i| Some((0..d.len(17 + i + 1).min(2)).map(|j| Some(Node(d.child(17, i * 4 + j)))).collect())).collect()))
             }
+            async fn matrix(&self, ctx: &Context<'_>) -> Result<Option<Vec<Option<Vec<i32>>>>> {
+                let d = self.data();
+                run(ctx, $name, "matrix", d).await?;
+                Ok(Some((0..d.len(40)).map(|i| Some((0..d.len(40 + i + 1).min(2)).map(|j| d.int(40 * 8 + i * 4 + j)).collect())).collect()))
+            }
             async fn vals(&self, ctx: &Context<'_>) -> Result<Option<Vec<Option<i32>>>> {
                 let d = self.data();
                 run(ctx, $name, "vals", d).await?;
@@ -745,10 +751,68 @@ pub type StaticSchema = Schema<Query, Mutation, Sub>;
 // ------------------------------------------------------------------------------------------------
 // dynamic flavour
 
+/// The same list as `dyn_value_for` builds, as one plain `Value::List` (the other way a dynamic
+/// resolver may hand back a list of scalars), together with the item paths made invalid by the fault
+/// plan: `null` where the item type is non-null, a number where a nested list is expected. `None` if
+/// the list cannot be expressed that way (composite items, or a fault on a nullable scalar item).
+fn dyn_plain_list(def: &FDef, ty: &Ty, d: NodeData, path: &str, depth: u32, idx: u32, faulted: &mut Vec<String>) -> Option<Value> {
+    match ty {
+        Ty::NonNull(inner) => dyn_plain_list(def, inner, d, path, depth, idx, faulted),
+        Ty::List(inner) => {
+            let n = if depth == 0 { d.len(def.salt) } else { d.len(def.salt + idx + 1).min(2) };
+            let mut items = Vec::new();
+            for i in 0..n {
+                let ipath = format!("{path}.{i}");
+                if world(|w| w.item_faults.contains_key(&ipath)) {
+                    match &**inner {
+                        Ty::NonNull(_) => items.push(Value::Null),
+                        Ty::List(_) => items.push(Value::from(7)),
+                        Ty::Named(_) => return None,
+                    }
+                    faulted.push(ipath);
+                    continue;
+                }
+                let sub_idx = if depth == 0 { i } else { idx * 4 + i };
+                items.push(dyn_plain_list(def, inner, d, &ipath, depth + 1, sub_idx, faulted)?);
+            }
+            Some(Value::List(items))
+        }
+        Ty::Named(_) => {
+            if depth == 0 {
+                return None;
+            }
+            match def.ret {
+                Ret::Int => Some(Value::from(d.int(def.salt * 8 + idx))),
+                Ret::Color => Some(Value::Enum(Name::new(match d.color(def.salt) {
+                    Color::Red => "RED",
+                    Color::Green => "GREEN",
+                    Color::Blue => "BLUE",
+                }))),
+                _ => None,
+            }
+        }
+    }
+}
+
 fn dyn_value_for<'a>(def: &FDef, ty: &Ty, d: NodeData, path: &str, depth: u32, idx: u32) -> Option<d::FieldValue<'a>> {
     match ty {
         Ty::NonNull(inner) => dyn_value_for(def, inner, d, path, depth, idx),
         Ty::List(inner) => {
+            // half of the scalar lists (chosen by path) are handed back as one plain Value::List
+            if depth == 0 && matches!(def.ret, Ret::Int | Ret::Color) && crate::core::tape::hash_str(path) % 2 == 1 {
+                let mut faulted = vec![];
+                if let Some(v) = dyn_plain_list(def, ty, d, path, depth, idx, &mut faulted) {
+                    for ipath in faulted {
+                        sim::count("fault:list-item-invalid");
+                        world(|w| {
+                            let seq = w.log.len();
+                            w.log.push(REvent { seq, kind: RKind::Failed(Fault::InvalidValue), path: ipath.clone(), parent: String::new(), field: def.name.to_string(), line: 0, col: 0, node_id: d.id, ev: d.ev });
+                        });
+                    }
+                    sim::count("probe:dynamic-list-as-plain-value");
+                    return Some(d::FieldValue::value(v));
+                }
+            }
             let n = if depth == 0 { d.len(def.salt) } else { d.len(def.salt + idx + 1).min(2) };
             let mut items = Vec::new();
             for i in 0..n {
